@@ -59,13 +59,34 @@ func VerifH_C11_PartialTraces() {
 			}
 			vAssertNoiseFree(r, vDecrypt(c, c.Dec, out2).Value, vSumOfAuts(r, params, phase, ks), params.NTTFlag(), 42, tag+"-Replicate-is-the-sum-of-the-n-backward-rotations")
 		}
+		// a receiver with more moduli than the input takes the level of the input
+		if level > 0 {
+			tag := "set" + vItoa(set) + "-input-below-the-level-of-the-receiver"
+			low := vAtomCiphertext(c, 1, 0, "l")
+			r0 := params.RingQ().AtLevel(0)
+			phase := vDecrypt(c, c.Dec, low).Value
+			gks := c.Kgen.GenGaloisKeysNew(GaloisElementsForInnerSum(params, 1, 3), c.Sk)
+			eval := c.Eval.WithKey(NewMemEvaluationKeySet(nil, gks...))
+			big := vAtomCiphertext(c, 1, level, "junk")
+			vAssert(eval.PartialTracesSum(low, 1, 3, big) == nil, tag+"-PartialTracesSum-no-error")
+			vAssert(big.Level() == 0, tag+"-receiver-takes-the-level-of-the-input")
+			if big.Level() == 0 {
+				vAssertNoiseFree(r0, vDecrypt(c, c.Dec, big).Value, vSumOfAuts(r0, params, phase, []int{0, 1, 2}), params.NTTFlag(), 42, tag+"-PartialTracesSum-is-the-sum-of-the-n-rotations")
+			}
+		}
 	}
 	vCover("C11-partial-traces-reached")
 }
 
 func VerifH_C11_Trace() {
 	vConfig("algebraic-samplers", "1")
-	c := VerifSetup_Ctx(1, vIsAlgebraic())
+	vTraceSet(1)
+	vTraceSet(4) // coefficient-domain ciphertexts
+	vCover("C11-trace-reached")
+}
+
+func vTraceSet(set int) {
+	c := VerifSetup_Ctx(set, vIsAlgebraic())
 	c.Kgen.GenSecretKey(c.Sk)
 	params := c.Params
 	level := params.MaxLevelQ()
@@ -73,6 +94,12 @@ func VerifH_C11_Trace() {
 	logNmax := params.LogN()
 	for logN := 0; logN < logNmax; logN++ {
 		tag := "trace-depth" + vItoa(logN)
+		if set != 1 {
+			if logN == 1 || logN == 3 {
+				continue
+			}
+			tag = "set" + vItoa(set) + "-" + tag
+		}
 		ct := vAtomCiphertext(c, 1, level, "t")
 		phase := vDecrypt(c, c.Dec, ct).Value
 		gks := c.Kgen.GenGaloisKeysNew(GaloisElementsForTrace(params, logN), c.Sk)
@@ -108,7 +135,6 @@ func VerifH_C11_Trace() {
 		}
 		vAssertNoiseFree(r, vDecrypt(c, c.Dec, out).Value, want, params.NTTFlag(), 42, tag+"-Trace-is-the-normalised-sum-over-the-subgroup")
 	}
-	vCover("C11-trace-reached")
 }
 
 // discrete logarithm on both ring types (word level, all 64-bit k)
